@@ -28,7 +28,7 @@ man = {
     "hooks": {
         "guard": "verif",
         "enable": "go1.26.8 test -c -tags verif -overlay <generated overlay.json> (accessor files under /verif/sim/inject are overlaid into repo packages; instrumented copies of repo sources are generated at check time; /repo itself carries no hook)",
-        "baseline_off_cmd": "cd /repo && GOFLAGS=-mod=mod GOPROXY=off GOSUMDB=off GOTOOLCHAIN=local go1.26.8 test -vet=off -count=1 -timeout 25m ./acme/... ./chord/... ./cmd/internal/... ./gateway/... ./kv/... ./pki/... ./spec/... ./tun/server/... ./util/...",
+        "baseline_off_cmd": "cd /repo && GOFLAGS=-mod=mod GOPROXY=off GOSUMDB=off GOTOOLCHAIN=local go1.26.8 test -vet=off -count=1 -timeout 25m ./acme/... ./chord/... ./cmd/internal/... ./gateway/... ./kv/... ./pki/... ./spec/... ./tun/server/... ./util/hashcash/... ./util/promise/...",
         "source_commits": [],
         "add_only": True,
     },
